@@ -7,6 +7,8 @@ import (
 	"io"
 	"math/rand"
 	"net"
+	"strings"
+	"sync/atomic"
 	"time"
 
 	"go.miragespace.co/specter/internal/verifkit"
@@ -48,6 +50,7 @@ type bufScn struct {
 	a, b    net.Conn
 	wgate   [2]*gate
 	rgate   [2]*gate
+	staged  bool // staleTimer: both the clearing call and the timer function were seen parked at the mutex
 }
 
 func classify(err error) string {
@@ -256,6 +259,60 @@ func (s *bufScn) walk(r *rand.Rand) {
 	}
 }
 
+// mutexWaiters counts the goroutines started since the scenario began that are parked in sync.Mutex.Lock.
+func (s *bufScn) mutexWaiters() int {
+	n := 0
+	for id, st := range goroutineStates() {
+		if !s.crew.baseline[id] && strings.HasPrefix(st, "[sync.Mutex.Lock") {
+			n++
+		}
+	}
+	return n
+}
+
+func waitFor(cond func() bool, limit time.Duration) bool {
+	for t0 := time.Now(); time.Since(t0) < limit; time.Sleep(500 * time.Microsecond) {
+		if cond() {
+			return true
+		}
+	}
+	return false
+}
+
+// staleTimer: directed schedule for the lead of MC_BufPipe_race.cfg.  While some critical section of the pipe is
+// in progress (the driver holds the pipe mutex the way a preempted Read/Write would), SetReadDeadline(zero) queues
+// at the mutex, then the deadline timer fires and its function queues behind it.  When the mutex is released the
+// deadline is cleared first (Stop cannot cancel the fired timer), then the timer function marks the pipe timed out.
+// Afterwards a Read on the empty pipe, with no deadline set, is recorded.
+func (s *bufScn) staleTimer() {
+	c := s.rconn(1)
+	s.doDeadline(2, 1, "setRD", c, 20)
+	unlock := bufconn.VerifLockReadPipe(c)
+	cleared := newGate()
+	s.crew.spawn(func() { s.doDeadline(5, 1, "clrRD", c, 0); cleared.open() })
+	okA := waitFor(func() bool { return s.mutexWaiters() >= 1 }, 5*time.Second)        // the clearing call is parked at the mutex
+	okB := okA && waitFor(func() bool { return s.mutexWaiters() >= 2 }, 5*time.Second) // ... and now the timer function too
+	unlock()
+	s.staged = okA && okB
+	cleared.wait()
+	time.Sleep(2 * time.Millisecond) // let the timer function (not a logged call) finish
+	rdone := newGate()
+	var rgid atomic.Int64
+	s.crew.spawn(func() { rgid.Store(curGID()); s.doRead(2, 1, c, 1); rdone.open() })
+	// write one byte only after the Read has returned or is parked waiting for data
+	waitFor(func() bool {
+		select {
+		case <-rdone.ch:
+			return true
+		default:
+		}
+		st := goroutineStates()[rgid.Load()]
+		return strings.HasPrefix(st, "[sync.Cond.Wait") || strings.HasPrefix(st, "[chan") || strings.HasPrefix(st, "[select")
+	}, 5*time.Second)
+	s.doWrite(1, 1, s.wconn(1), []byte{streamByte(1, 0)})
+	rdone.wait()
+}
+
 var capChoices = []int{1, 1, 1, 2, 2, 2, 3, 3, 3, 4, 4, 5, 6, 7, 8, 8, 9, 12, 16, 17, 31, 32, 33, 63, 64}
 
 func genPlan(r *rand.Rand, cp int) dirPlan {
@@ -313,8 +370,11 @@ func runBufScenario(id, run int) bool {
 	}
 	fams := []string{"walk", "stream", "stream", "duplex", "duplex", "rclose", "ctlclose", "rdeadline", "wdeadline", "idle"}
 	s.fam = fams[id%len(fams)]
+	if id%100 == 99 {
+		s.fam = "staletimer"
+	}
 	switch s.fam {
-	case "walk":
+	case "walk", "staletimer":
 	case "stream":
 		s.plans[0] = genPlan(r, s.cap)
 	case "duplex":
@@ -377,6 +437,9 @@ func runBufScenario(id, run int) bool {
 	if s.fam == "walk" {
 		s.crew.spawn(func() { s.walk(r) })
 	}
+	if s.fam == "staletimer" {
+		s.crew.spawn(s.staleTimer)
+	}
 	for d := 1; d <= 2; d++ {
 		if s.plans[d-1].active {
 			d := d
@@ -405,7 +468,8 @@ func runBufScenario(id, run int) bool {
 	ok = s.crew.settle(s.rec) && ok
 	s.rec.add(event{T: "check"})
 	verifkit.Emit(map[string]any{"scn": id, "run": run, "fam": s.fam, "cap": s.cap, "progress": ok,
-		"dirs": []bool{s.plans[0].active || s.fam == "walk", s.plans[1].active}, "events": s.rec.snapshot()})
+		"staged": s.staged,
+		"dirs":   []bool{s.plans[0].active || s.fam == "walk" || s.fam == "staletimer", s.plans[1].active}, "events": s.rec.snapshot()})
 	return ok
 }
 
